@@ -6,7 +6,43 @@ from vlib import coq_value, coq_bool, coq_z, js, jb, ji, jf_bits, jo, ja
 import gen
 
 ID = "C28"
-THEOREMS = []   # filled below (kept in one list so that the pin file and the module agree)
+THEOREMS = [
+    "C28_upcase_idem_any_table",
+    "C28_upcase_idem",
+    "C28_downcase_idem_any_table",
+    "C28_downcase_idem",
+    "C28_is_ws_spec",
+    "C28_strip_ws_spec",
+    "C28_strip_ws_idem",
+    "C28_join_split",
+    "C28_join_split_valid",
+    "C28_starts_with_spec",
+    "C28_ends_with_spec",
+    "C28_contains_spec",
+    "C28_find_first",
+    "C28_ci_spec",
+    "C28_ci_final_sigma_refuted",
+    "C28_starts_with_ci_refuted",
+    "C28_truncate_len",
+    "C28_truncate_spec",
+    "C28_strlen_utf8",
+    "C28_slice_spec",
+    "C28_chunks_spec",
+    "C28_unique_nodup",
+    "C28_unique_same_elements",
+    "C28_unique_first_occurrence",
+    "C28_unique_idem",
+    "C28_veq_equiv",
+    "C28_compact_spec",
+    "C28_compact_clean",
+    "C28_compact_idem",
+    "C28_keys_values_length",
+    "C28_merge_right_bias",
+    "C28_merge_shallow",
+    "C28_push_append",
+    "C28_flatten",
+    "C28_nonvacuous",
+]
 IMPORTS = ("From Coq Require Import List NArith ZArith String.\n"
            "From VRL Require Import Base.Bytes Base.Value Base.Lit Model.CodecUtf8 Model.StrFns Model.CollFns Corr.C28.\n"
            "Local Open Scope string_scope.")
@@ -15,8 +51,31 @@ MANIFEST = {
     "technique": "Coq proofs (induction over byte/code-point lists and nested values; finite tables lifted by "
                  "vm_compute sweeps) on hand models of the stdlib functions + differential correspondence vs the "
                  "functions run through compiled VRL programs + exhaustive code-point sweeps of the implementation",
-    "text": "",
-    "note": "",
+    "text": "Closed Coq theorems on hand models of the stdlib functions, every one quantified over all inputs: upcase and "
+            "downcase (final-sigma rule included) are idempotent for EVERY per-code-point mapping whose outputs are fixed "
+            "points (and for the modelled Unicode table); strip_whitespace removes exactly a maximal whitespace prefix and "
+            "suffix (the 25 White_Space code points); join(split(s, d, limit), d) == s for every string pattern incl. the "
+            "empty one and every limit >= 1; starts_with/ends_with/contains <-> existence of the decomposition (and the "
+            "search finds the first position); truncate never exceeds limit + chars(suffix) and returns short strings "
+            "unchanged; strlen(utf8(cps)) = |cps|; slice = positional indexing with negative indices and clamping, errors "
+            "exactly outside; unique: no duplicates under Value's ==, same elements, first occurrences in order, idempotent; "
+            "compact = filter of the configured empties after recursive compaction, result clean at every depth, idempotent; "
+            "keys/values/length agree; merge is right-biased (deep: recursively on object/object); push/append/flatten/chunks. "
+            "The models are tied to the code by running every function through compiled VRL programs on generated inputs "
+            "(Unicode pool with length-changing case pairs, all whitespace, invalid UTF-8, nested values with empties x all "
+            "option combinations) and comparing with the Gallina definitions; every law is also evaluated directly on the "
+            "implementation's outputs; the hypotheses about the Unicode tables are checked on the implementation by "
+            "exhaustive sweeps over all 1,112,064 scalar values on every run.",
+    "note": "Unicode tables: char::is_whitespace is modelled completely (sweep over all code points compares the sets); the "
+            "case mapping tables (Model/CaseTables.v, generated from the implementation) cover U+0000-1FFF, 2100-21FF, "
+            "2C60-2C7F, A640-A69F, A720-A7FF, FB00-FB17, FF21-FF5A, every entry re-checked against the implementation on every "
+            "run; outside that domain the correspondence is silent and the *_any_table theorems + the exhaustive sweep carry "
+            "the claim. The casing functions (convert_case crate) and regex split patterns are not modelled: their laws are "
+            "only searched on the implementation (level of that part: test). merge_right_bias assumes unique keys in `from` "
+            "(a BTreeMap). Known findings (genuine defects, see known_findings/C28.json): case-insensitive starts_with "
+            "zips chars (\"K\" U+212A starts with \"kk\"), panics on invalid UTF-8; case-insensitive ends_with/contains miss "
+            "matches because of the final-sigma rule; camelcase/pascalcase (and on titlecase/multi-char-uppercase letters all "
+            "casing functions) are not idempotent; snakecase!(non-string) panics. No axioms (Print Assumptions: closed).",
     "design_ref": "DESIGN.md section 5 C28",
 }
 
